@@ -23,6 +23,7 @@ class EngineC14(HistEngine):
         insts = [fmt0]
         subs: list[str] = []
         ops = []
+        used_names: set[str] = set()
         for _ in range(n):
             k = ch.weighted([("insn", 10), ("stmt", w_stmt), ("fresh", w_fresh), ("new", w_new if len(insts) < 3 else 0),
                              ("add_sub", 1), ("parse_err", fail_w // 2), ("load", 1), ("loaded_insn", 2)], "opkind")
@@ -67,7 +68,8 @@ class EngineC14(HistEngine):
                 op = {"op": "fresh", "inst": inst, "code": part, "fmt": rfmt}
                 rname, rparts = "stmt", [part]
             else:
-                vname = self.name_variant(ch, name)
+                vname = self.name_variant(ch, name, used_names)
+                used_names.add(vname)
                 op = {"op": "insn", "inst": inst, "name": vname, "parts": parts,
                       "via": ch.choice(["transform_insn", "transform_insn", "compile_insn"], "via")}
                 rname, rparts, rfmt = vname, parts, insts[inst]
